@@ -208,10 +208,12 @@ func (k Keeper) ForceValidatorUnstake(ctx sdk.Ctx, validator types.Validator) sd
 	k.BeforeValidatorUnstaked(ctx, validator.GetAddress())
 	// delete the validator from staking set as they are unstaked
 	k.deleteValidatorFromStakingSet(ctx, validator)
-	// amount unstaked = stakedTokens
-	err := k.burnStakedTokens(ctx, validator.StakedTokens)
-	if err != nil {
-		return err
+	// amount unstaked = stakedTokens (nothing is left to burn after a slash of the whole stake)
+	if validator.StakedTokens.IsPositive() {
+		err := k.burnStakedTokens(ctx, validator.StakedTokens)
+		if err != nil {
+			return err
+		}
 	}
 	// remove their tokens from the field
 	validator = validator.RemoveStakedTokens(validator.StakedTokens)
